@@ -15,35 +15,45 @@ class C03(CoreProp):
     prop_file = "Props/C03.v"
     engine = "C03"               # harness/c03.go: the TC runner with a small stack limit
     coq_targets = ["Props/C03.vo", "Run/Judge_Core.vo", "Props/Tables.vo"]
-    sizes = {"quick": 450, "thorough": 3000}
+    sizes = {"quick": 520, "thorough": 3000}
     shard = 24
     design_ref = "DESIGN.md section 6/C03"
-    rule = ("four streams.  GENERAL (35 %): 1-4 mixin definitions (0-3 parameters; bodies printing parameters, page data, "
+    rule = ("five streams.  GENERAL (30 %): 1-4 mixin definitions (0-3 parameters; bodies printing parameters, page data, "
             "attributes.<name>, caller-local names (which must be invisible), placing `block` 0, 1 or 2 times, inside a loop of "
             "the body, and forwarding it to another mixin through that call's own block - alone or among other nodes) and a main "
             "part calling them repeatedly: in each-loops with a block that reads the loop variable and caller locals that change "
             "between calls, nested calls inside blocks, bounded recursion driven by a counter argument with the block forwarded "
             "through every level, missing and surplus arguments, attributes on calls (also spread onto a tag with &attributes).  "
-            "SHAPES (25 %): call-site shapes inside a recursive mixin (recursion direct or through a trampoline mixin, depth 1-4 "
+            "SHAPES (22 %): call-site shapes inside a recursive mixin (recursion direct or through a trampoline mixin, depth 1-4 "
             "or data driven): its body holds IN RANDOM ORDER a guarded recursive call whose block content reads the mixin's own "
             "parameters / a body-local variable (alone, next to `block`, inside a further call, only `block`, or empty), one or two "
             "forwarding calls to box mixins (block content only `block`; `block` among other nodes; forwarding again inside the "
             "forwarded block, i.e. pure forwarding at every level; boxes that forward to other boxes), direct placements of "
             "`block`, prints, and calls without block content of a probe mixin that tests `block`; called from the main part "
             "with blocks reading caller locals / loop variables, with calls of the same recursive mixin inside the block, "
-            "without block, and in loops.  ATTRSTATE (18 %): 1-3 mixins whose bodies ASSIGN into their attributes object "
+            "without block, and in loops.  ATTRSTATE (15 %): 1-3 mixins whose bodies ASSIGN into their attributes object "
             "(`- attributes.k = e`: always, depending on an argument, depending on page data) and read it back before and "
             "after (attributes.k printed / tested, &attributes(attributes) on a tag), nested calls made after storing, and mixins "
             "that only read; the main part calls them 2-7 times in one render with and without attributes, with different, "
             "falsy and missing arguments, in loops and branches; the second data value of the case flips the page data the "
-            "bodies depend on.  PAGEDATA (22 %): caller locals that HAVE THE NAME OF A PAGE-DATA KEY: the page assigns to keys "
+            "bodies depend on; every data value is rendered twice on the same engine.  PAGEDATA (19 %): caller locals that HAVE THE NAME OF A PAGE-DATA KEY: the page assigns to keys "
             "of its data (`- s = \"Local\"`, `- s = s || \"Default\"`, `- n = n + 1`, `- p = !p`, `- var s = ...`) as its very "
             "first statement, after 0-3 `- var` declarations, inside and after page-level each-loops and branches (all of which "
             "grow the page's variable stack), prints them, passes them as arguments and in block content, and calls 1-3 reader "
             "mixins (also nested, from block content, in loops) whose bodies print / test those keys and must show the PAGE DATA; "
             "block content passed by the page also WRITES a key (`- t = \"bob\"` as the block's first statement; that key is "
             "then read by mixin bodies and by that block only); readers with a parameter named like a key; a mixin that assigns "
-            "a key itself and then calls a reader.  SIBLINGS: 30 % of the cases of EVERY stream are not loaded alone: 1-3 other "
+            "a key itself and then calls a reader.  LITARGS (14 %): calls written with LITERALS ONLY (`+la1([\"a\", \"b\"], \"x\")`, "
+            "`+la2({k: \"a\", n: 1}, \"y\")(id=\"lit\")`, array and object literals among the arguments, literal attributes, with and "
+            "without block content, surplus arguments) of 1-3 mixins whose bodies CHANGE what they were given (`- var u = l.push(x)`, "
+            "l.pop(), `- l.k = l.k + x`, `- l.z = x`, `- l.n = l.n + 1`, `- attributes.title = x`: always, depending on an argument, "
+            "depending on page data) and read it before and after (each over l, l.join, l.length, l.k, attributes.k printed / "
+            "tested); the SAME call site is executed repeatedly: in each-loops over literals and page data (0-5 rounds), in the "
+            "body of a wrapper mixin that is called 2-3 times or in a loop, at every level of a recursive mixin (depth 1-3), as a "
+            "nested call of a mutating body, next to calls of the same mixins whose second argument is a loop variable or page "
+            "data; and every data value is rendered TWICE ON THE SAME ENGINE (harness c03RunAgain: results d1, d1', d2, d2', each "
+            "judged as a render of its own), so every call site of the compiled template runs again in a later render: each "
+            "execution must get fresh argument and attributes objects.  SIBLINGS: 30 % of the cases of EVERY stream are not loaded alone: 1-3 other "
             "page files are written next to the page under test (60 % in its directory, else in a directory below / above / "
             "elsewhere; the page itself in template/page, in sec/ or in sec/deep/) that define mixins OF THE SAME NAMES with "
             "other bodies, parameter lists and block use (the page's own definitions twisted: bodies rotated among the names, "
@@ -54,7 +64,8 @@ class C03(CoreProp):
             "with every data value in both: each result is judged as the page loaded alone (S and M know no siblings).  "
             "EVERY case is rendered with two data values, one after the other on fresh engines in ONE "
             "harness process of its own (so state kept at package level survives from the first render into the second, and "
-            "a failing case is a complete replay); a process that exceeds 12 s / 3 GB / 64 MB of stack is class 'crash'.  "
+            "a failing case is a complete replay); the ATTRSTATE and LITARGS cases without siblings render each data value twice "
+            "on its engine (state kept in the engine or keyed by the parsed template survives too); a process that exceeds 12 s / 3 GB / 64 MB of stack is class 'crash'.  "
             "non-trivial = at least one call with a non-empty block or at least two calls of one mixin; distinct by SHA-1; "
             "coverage.distribution.sibling_cases counts the sibling cases and the listing orders realised")
     trusted = [
@@ -71,7 +82,8 @@ class C03(CoreProp):
         "is a data key changes the caller's environment, never what bodies see); S is given the page under test alone - "
         "sibling files have no meaning in it",
         "each case runs in its own harness process (gen/c03.py run): state surviving between CASES is not explored, state "
-        "surviving between the two renders, the two directory layouts and the many calls of one case is",
+        "surviving between the two renders, the two directory layouts, the repeated render on one engine (streams attrstate, "
+        "litargs) and the many executions of one call site within a render is",
         "the directory listing order is the file system's: harness/c03.go renames sibling entries until Readdir(-1) lists the "
         "page before / after them and reports whether it managed (distribution.sibling_cases.both_listing_orders_realised)",
     ]
@@ -90,7 +102,12 @@ class C03(CoreProp):
         "(S keeps insertion order, Map.Keys sorts an unordered map on first use: the same sequence under this restriction); "
         "bodies that read by name assign any name; `attributes` is not iterated with each (objects grown by assignment: "
         "finding class fl_obj_grown of C02)",
-        "the two renders of a case are sequential; concurrent renders sharing state are C08/C14's subject",
+        "the renders of a case (also the two on one engine) are sequential; concurrent renders sharing state are C08/C14's subject",
+        "LITARGS: arrays are changed with push / pop inside a `- var u = ...` declaration (the value of a bare expression "
+        "statement is printed by the engine: C01/C20's subject; S flags every push - the flag only matters where the engine "
+        "departs from S, and there the case is a violation unless M departs the same way), objects by assignment to existing "
+        "and new keys that are read by name only (never iterated); a caller's variable holding an array is not passed to a "
+        "mutating body (sharing between caller and callee is JavaScript's reference semantics, C07's subject)",
         "sibling files load when they are alone (the harness checks each and leaves out one that does not: a file that "
         "cannot be compiled makes the whole load fail, for every page - C13/C17's subject); siblings are never rendered",
     ]
@@ -100,7 +117,8 @@ class C03(CoreProp):
         "call leaves exactly the frames it found; bindings survive calls; the page data of a frame is constant, whatever it "
         "assigns), what a mixin body sees - also after any statements of the caller -, where a block runs, the "
         "lookup rules for repeated / nested / recursive calls, positional parameters, freshness of the attributes object of "
-        "every call (M's heap), that a pure-forwarding call site is lowered with a wrapper block of its own, and that the "
+        "every call (M's heap; that literal ARGUMENT arrays / objects are fresh at every execution of a call site is M's and "
+        "S's evaluation of the literal at each call, compared with the engine by the litargs stream, not a theorem of its own), that a pure-forwarding call site is lowered with a wrapper block of its own, and that the "
         "template a page compiles to does not depend on the other files of the load nor on their order; their "
         "composition with the rest of Pug/Compile.v (the __freeze / template lowering of arbitrary block content) and "
         "Spec/Sem.v rests on the correspondence run, judged against BOTH M and S",
@@ -163,7 +181,7 @@ class C03(CoreProp):
         return out
 
     # four streams (shares of the run); on top of them, SIBLING_SHARE of the cases of every stream get sibling files
-    STREAMS = (("general", 0.35), ("shapes", 0.25), ("attrstate", 0.18), ("pagedata", 0.22))
+    STREAMS = (("general", 0.30), ("shapes", 0.22), ("attrstate", 0.15), ("pagedata", 0.19), ("litargs", 0.14))
     SIBLING_SHARE = 0.3
     only_stream = None
 
@@ -193,6 +211,8 @@ class C03(CoreProp):
             return self.gen_attrstate(rng)
         if stream == "pagedata":
             return self.gen_pagedata(rng)
+        if stream == "litargs":
+            return self.gen_litargs(rng)
         return self.gen_general(rng)
 
     # ---------------------------------------------------------------- stream "general"
@@ -587,7 +607,173 @@ class C03(CoreProp):
             data[b"p"], d2[b"p"] = True, False
             data[b"s"], d2[b"s"] = b"on", b""
             data[b"n"], d2[b"n"] = 7, 0
-        return {"nodes": ser(nodes), "datas": [ser(data), ser(d2)], "stream": "attrstate"}
+        return {"nodes": ser(nodes), "datas": [ser(data), ser(d2)], "stream": "attrstate", "again": True}
+
+    # ---------------------------------------------------------------- stream "litargs"
+    # Every execution of a call evaluates its arguments and attributes anew: a call written with LITERALS only
+    # (`+tags(["a", "b"], "x")(id="lit")`, `+row({k: "a", n: 1}, "y")`) hands the body fresh arrays / objects each time
+    # it runs.  The bodies here CHANGE what they were given (`- l.push(x)`, `- l.pop()`, `- l.k = l.k + x`,
+    # `- l.z = x`, `- l.n = l.n + 1`, `- attributes.title = x`; always, depending on an argument, depending on page
+    # data) and read it before and after; the main part runs the SAME call site many times: in each-loops over
+    # literals and page data, inside a wrapper mixin that is itself called repeatedly, at every level of a recursive
+    # mixin, next to calls of the same mixin whose arguments hold a variable.  The harness renders every data value
+    # TWICE ON THE SAME ENGINE (the case's "again" flag), so a call site also runs again in a later render of the same
+    # compiled template.  Nothing one execution did to its arguments may show in another.
+    def gen_litargs(self, rng):
+        g = tgen.TGen(rng, offdomain=0.0, max_depth=1)
+        data, genv = g.data()
+        P = lambda e, esc=True: ('code', [('expr', e)], esc, True)
+        X = lambda e: ('code', [('expr', e)], False, False)
+        T = lambda s: ('text', s)
+        AT = lambda k: ('dot', ('id', b"attributes"), k)
+        L = ('id', b"l")
+        LD = lambda k: ('dot', L, k)
+        BLK = ('mixinblock',)
+        WORDS = [b"a", b"b", b"c", b"dd", b"e"]
+        W = lambda: ('str', rng.choice(WORDS))
+        nodes = []
+        mixins = []                              # (name, kind, places_block)
+
+        def guard(st, x_is):
+            k = rng.random()
+            if k < 0.55:
+                return st
+            if k < 0.75:
+                return ('cond', ('id', rng.choice([b"p", b"p", b"s", b"n"])), [st], None)      # depends on page data
+            return ('cond', ('bin', '==', ('id', b"x"), ('str', x_is)), [st], ('block', [T(b"~")]))  # on an argument
+
+        x_is = rng.choice(WORDS)
+
+        def lit_call_of(m, var, blk_src=None):
+            """a call of mixin m whose arguments and attributes are literals (var: an expression used for the
+            second argument instead - the neighbouring, variable-argument call)"""
+            name, kind, places = m
+            if kind == 'arr':
+                first = ('arr', [W() for _ in range(rng.choice([2, 2, 3, 4]))])
+            elif kind == 'obj':
+                first = ('obj', [(b"k", W()), (b"n", ('num', rng.choice([0, 1, 7])))] + ([(b"z", ('str', b""))] if rng.random() < 0.3 else []))
+            else:
+                first = rng.choice([W(), ('arr', [W()]), ('num', 1)])
+            args = [first, var if var is not None else ('str', x_is) if rng.random() < 0.5 else W()]
+            if rng.random() < 0.1:
+                args.append(W())               # surplus argument
+            attrs = []
+            if rng.random() < (0.6 if kind == 'attr' else 0.25):
+                for an in rng.sample([b"id", b"k"], rng.choice([1, 1, 2])):
+                    attrs.append((an, W(), True))
+            blk = []
+            if places and rng.random() < 0.6:
+                blk = [rng.choice([T(b"B"), blk_src if blk_src is not None else T(b"blk")])]
+            return ('call', name, args, attrs, blk)
+
+        for mi in range(rng.choice([1, 2, 2, 3])):
+            name = b"la%d" % (mi + 1)
+            kind = rng.choice(['arr', 'arr', 'obj', 'obj', 'attr'])
+            reads, muts = [], []
+            if kind == 'arr':
+                reads = [None,                       # each over l: see rd
+                         lambda: P(('call', ('dot', L, b"join"), [('str', rng.choice([b"-", b","]))])),
+                         lambda: P(LD(b"length"))]
+                # `- var u = l.push(x)`: a bare `- l.push(x)` is an expression statement, whose value the engine prints
+                # (C01/C20's subject); the declaration keeps the statement silent
+                V = lambda e: ('code', [('vars', [('var', g.fresh(b"u"), e)])], False, False)
+                muts = [lambda: V(('call', ('dot', L, b"push"), [('id', b"x")])),
+                        lambda: V(('call', ('dot', L, b"push"), [('id', b"x")])),
+                        lambda: V(('call', ('dot', L, b"push"), [W()])),
+                        lambda: V(('call', ('dot', L, b"pop"), []))]
+            elif kind == 'obj':
+                reads = [lambda: ('tag', rng.choice([b"em", b"b"]), True, [], [], [P(LD(b"k"))]),
+                         lambda: P(LD(b"n")),
+                         lambda: ('cond', LD(b"z"), [T(b"+z"), P(LD(b"z"))], ('block', [T(b"-z")])),
+                         lambda: P(LD(b"k"))]
+                muts = [lambda: X(('assign', LD(b"k"), ('bin', '+', LD(b"k"), ('id', b"x")))),
+                        lambda: X(('assign', LD(b"k"), ('id', b"x"))),
+                        lambda: X(('assign', LD(b"z"), ('id', b"x"))),
+                        lambda: X(('assign', LD(b"n"), ('bin', '+', LD(b"n"), ('num', 1))))]
+            else:
+                reads = [lambda: ('tag', rng.choice([b"em", b"b"]), True, [], [], [P(AT(rng.choice([b"id", b"title"])))]),
+                         lambda: ('cond', AT(b"title"), [T(b"+t")], ('block', [T(b"-t")])),
+                         lambda: P(AT(rng.choice([b"id", b"k", b"title"])))]
+                muts = [lambda: X(('assign', AT(b"title"), ('id', b"x"))),
+                        lambda: X(('assign', AT(rng.choice([b"id", b"k"])), ('bin', '+', ('str', b"w-"), ('id', b"x")))),
+                        lambda: X(('assign', AT(b"title"), W()))]
+            body = []
+
+            def rd():
+                f = rng.choice(reads)
+                if kind == 'arr' and f is reads[0]:
+                    v = g.fresh(b"e")
+                    return ('each', v, None, L, [('tag', rng.choice([b"b", b"i"]), True, [], [], [P(('id', v))])])
+                return f()
+            if rng.random() < 0.75:
+                body.append(rd())                    # a read BEFORE the body changed anything
+            for _ in range(rng.choice([1, 1, 2])):
+                body.append(guard(rng.choice(muts)(), x_is))
+            if mixins and rng.random() < 0.35:
+                # a nested call written with literals only, made by every execution of this body
+                body.append(lit_call_of(rng.choice(mixins), None))
+            for _ in range(rng.choice([1, 2])):
+                body.append(rd())
+            places = rng.random() < 0.3
+            if places:
+                body.insert(rng.randrange(len(body) + 1), BLK)
+            body.append(T(b";"))
+            nodes.append(('mixin', name, [b"l", b"x"], body))
+            mixins.append((name, kind, places))
+        # a wrapper mixin: its body holds literal call sites and is executed repeatedly
+        wrap = rng.random() < 0.45
+        if wrap:
+            wbody = [T(b"[")] + [lit_call_of(rng.choice(mixins), None) for _ in range(rng.choice([1, 1, 2]))] + [T(b"]")]
+            nodes.append(('mixin', b"wr", [b"a"], wbody + ([P(('id', b"a"))] if rng.random() < 0.5 else [])))
+        # a recursive mixin: the literal call site runs at every level
+        rec = rng.random() < 0.35
+        if rec:
+            rb = [lit_call_of(rng.choice(mixins), None),
+                  ('cond', ('bin', '>', ('id', b"n"), ('num', 0)), [('call', b"rp", [('bin', '-', ('id', b"n"), ('num', 1))], [], [])], None)]
+            if rng.random() < 0.5:
+                rb.reverse()
+            nodes.append(('mixin', b"rp", [b"n"], rb))
+        env = genv.copy()
+
+        def loop(body_of):
+            it = g.fresh(b"it")
+            coll = rng.choice([('arr', [('num', 1), ('num', 2)]), ('arr', [('num', 1), ('num', 2), ('num', 3)]), ('id', b"xs"), ('id', b"ws"),
+                               ('arr', [('str', b"a"), ('str', b"b")])])
+            return ('each', it, None, coll, body_of(('id', it), coll in (('id', b"xs"),) or (coll[0] == 'arr' and coll[1][0][0] == 'num')))
+
+        repeated = 0
+        for _ in range(rng.choice([2, 2, 3, 4])):
+            k = rng.random()
+            if k < 0.40:
+                def body_of(itv, isnum):
+                    out = [lit_call_of(rng.choice(mixins), None, P(itv))]
+                    if rng.random() < 0.3:
+                        out.append(lit_call_of(rng.choice(mixins), itv if not isnum and rng.random() < 0.7 else None))
+                    return out
+                nodes.append(loop(body_of))
+                repeated += 1
+            elif k < 0.55 and wrap:
+                if rng.random() < 0.5:
+                    nodes.append(loop(lambda itv, isnum: [('call', b"wr", [itv], [], [])]))
+                else:
+                    for _ in range(rng.choice([2, 3])):
+                        nodes.append(('call', b"wr", [W()], [], []))
+                repeated += 1
+            elif k < 0.70 and rec:
+                nodes.append(('call', b"rp", [('num', rng.choice([1, 2, 2, 3]))], [], []))
+                repeated += 1
+            elif k < 0.85:
+                nodes.append(lit_call_of(rng.choice(mixins), None))
+            else:
+                # the neighbouring call: the second argument is a page-data value
+                nodes.append(lit_call_of(rng.choice(mixins), ('id', rng.choice([b"s", b"t"]))))
+        if not repeated:
+            nodes.append(loop(lambda itv, isnum: [lit_call_of(rng.choice(mixins), None)]))
+        d2, _ = g.data()
+        d2 = {k: d2.get(k, v) for k, v in data.items()}
+        if rng.random() < 0.5:
+            d2[b"p"] = not data[b"p"]
+        return {"nodes": ser(nodes), "datas": [ser(data), ser(d2)], "stream": "litargs", "again": True}
 
     # ---------------------------------------------------------------- stream "pagedata"
     # "A mixin body sees the page data but not the caller's local variables" when the caller's local variable HAS
@@ -836,6 +1022,7 @@ class C03(CoreProp):
             else:
                 d = "oth/"
             sibs.append([d + names[i], ser(snodes)])
+        case = {k: v for k, v in case.items() if k != "again"}      # the two layouts take the place of the repeated render
         return dict(case, tname=tdir + "t", sibs=sibs)
 
     def harness_case(self, case):
@@ -845,6 +1032,8 @@ class C03(CoreProp):
               "datas": [tmpl.data_go(d) for d in datas], "debug": False}
         if case.get("sibs"):
             hc["sibs"] = {hx(n): hx(tmpl.pug_file(de(ns))) for n, ns in case["sibs"]}
+        elif case.get("again"):
+            hc["again"] = True               # every data value twice on the same engine (harness/c03.go c03RunAgain)
         return hc
 
     def emit(self, case, obs):
@@ -861,6 +1050,15 @@ class C03(CoreProp):
                 obs = dict(obs, prod=dict(obs["prod"], res=res[:n]))
             else:
                 datas = datas + datas
+        elif case.get("again"):
+            # every data value was rendered twice on one engine: results d1, d1', d2, d2'
+            res = obs["prod"].get("res") or []
+            key = lambda r: (r.get("class"), r.get("out", ""))
+            n = len(datas)
+            if obs["prod"].get("load") == "ok" and len(res) == 2 * n and all(key(res[2 * i]) == key(res[2 * i + 1]) for i in range(n)):
+                obs = dict(obs, prod=dict(obs["prod"], res=res[0::2]))      # the repeat gave the same bytes: judged once
+            else:
+                datas = [d for d in datas for _ in (0, 1)]
         return (b"{| c_nodes := " + cq_list([tmpl.pug_coq(n) for n in nodes])
                 + b"; c_datas := " + cq_list([tmpl.data_coq(d) for d in datas])
                 + b"; c_funcs := " + cq_list([cq_bytes(f) for f in FUNCS])
